@@ -824,6 +824,7 @@ def exhaustive_reports():
                     ops.append('call %d 1 %d 0' % (m, 0 if satmatch else 2))        # 0: only the saturated one matches; 2: e2 unless a WITH fails
                     ops.append('call %d 3 1 1' % m)                                   # g(1,1): second parameter rejects
                     ops.append('call %d 3 2 2' % m)                                   # g(2,2): first parameter rejects
+                    ops.append('call %d 3 0 0' % m)                                   # g(0,0): BOTH parameters reject (both must be listed)
                     if swap:
                         ops.append('setrep 1 0')
                     ops.append('call %d 1 1 0' % m)                                   # e2 accepts when its WITH terms allow
